@@ -2,15 +2,44 @@
 
 package main
 
-import "runtime"
+import (
+	"fmt"
+	"runtime"
+	"strings"
+)
 
 // The binary was built by build.sh with the patched standard library (see overlay/).
 const overlayBuilt = true
 
-func seamReset()                               { runtime.VerifMapIterReset() }
-func seamSet(slot int, k int64, e, d uint64)   { runtime.VerifSetMapIter(slot, k, e, d) }
-func seamPassthrough(on bool)                  { runtime.VerifMapIterPassthrough(on) }
-func seamCount() (total, small, large int64)   { return runtime.VerifMapIterCount() }
-func seamInfo(k int64) uint32                  { return runtime.VerifMapIterInfo(k) }
+func seamReset()                             { runtime.VerifMapIterReset() }
+func seamSet(slot int, k int64, e, d uint64) { runtime.VerifSetMapIter(slot, k, e, d) }
+func seamPassthrough(on bool)                { runtime.VerifMapIterPassthrough(on) }
+func seamCount() (total, small, large int64) { return runtime.VerifMapIterCount() }
+func seamInfo(k int64) uint32                { return runtime.VerifMapIterInfo(k) }
+
+// seamSite describes where the last deviating map iteration was started: the innermost frame outside
+// the runtime/reflect plumbing, e.g. "compiler.(*syntaxLoader).convertPart (compiler/syntax.go:866)".
+func seamSite() (fn, pos string) {
+	pcs := runtime.VerifMapIterSite()
+	if len(pcs) == 0 {
+		return "", ""
+	}
+	frames := runtime.CallersFrames(pcs)
+	for {
+		f, more := frames.Next()
+		skip := strings.HasPrefix(f.Function, "runtime.") || strings.HasPrefix(f.Function, "internal/runtime/") ||
+			strings.HasPrefix(f.Function, "reflect.") || strings.HasPrefix(f.Function, "internal/reflectlite.") || f.Function == ""
+		if !skip {
+			fn = f.Function
+			if i := strings.LastIndex(fn, "/"); i >= 0 {
+				fn = fn[i+1:]
+			}
+			return fn, fmt.Sprintf("%s:%d", shortPath(f.File), f.Line)
+		}
+		if !more {
+			return "", ""
+		}
+	}
+}
 
 const seamTraceLen = runtime.VerifMapIterTraceLen
